@@ -204,6 +204,18 @@ Theorem render_fails_only_if_tokenize_does : forall sty c simple o x,
   exists bytes, render c simple o x = Ok bytes.
 Proof. exact render_never_fails. Qed.
 Print Assumptions render_fails_only_if_tokenize_does.
+(* the lines hold no ESC when the inputs hold none (class name, message, file and function names, source text, tokens;
+   the path separator is not ESC): render fails only if tokenize does, decorated or not *)
+Theorem escape_free_inputs_give_escape_free_lines : forall c simple ind x ls,
+  inputs_ne c x -> render_lines c simple ind x = Ok ls -> Forall (fun wl => no_esc (snd wl)) ls.
+Proof. exact lines_noesc. Qed.
+Print Assumptions escape_free_inputs_give_escape_free_lines.
+Theorem render_fails_only_if_tokenize_does_inputs : forall sty c simple o x,
+  out_ok sty o -> resolvable sty st_error -> resolvable sty st_b ->
+  (simple = false -> render_cond c x) -> (decorated o = true -> inputs_ne c x) ->
+  exists bytes, render c simple o x = Ok bytes.
+Proof. exact render_never_fails_inputs. Qed.
+Print Assumptions render_fails_only_if_tokenize_does_inputs.
 (* undecorated, the bytes are the shown texts of the (indented) pieces, line after line *)
 Theorem plain_report_bytes : forall sty c simple o x ls,
   out_ok sty o -> resolvable sty st_error -> resolvable sty st_b -> decorated o = false ->
